@@ -309,6 +309,8 @@ func checkC08(c *Ctx, r *Report) {
 	}
 	checkDMTables(c, r)
 	checkDMGenerators(c, r)
+	checkDMECCBlock(c, r)
+	checkFreshResults(c, r, "datamatrix/encoder") // the interleaved codewords are a buffer of their own (also C18)
 	checkDMRandomize(c, r)
 	checkDMPlacement(c, r)
 	checkDMRegionSwitches(c, r)
@@ -2012,4 +2014,103 @@ func (d dmCell) describe() string {
 		return "fixed pattern, " + darkLight(d.fixed)
 	}
 	return fmt.Sprintf("bit %d of codeword %d", d.bit, d.pos)
+}
+
+// S-DMECC: the Data Matrix encoder's own Reed-Solomon arithmetic
+func checkDMECCBlock(c *Ctx, r *Report) {
+	r.Rule("S-DMECC", "the Data Matrix encoder's Reed-Solomon arithmetic, folded from source: the package initialiser fills alog[i] = 2^i and log as its inverse over GF(256)/0x12D; createECCBlock, folded with these tables and the factor tables for each of the 16 parity lengths on the empty word, one-byte words and longer words, returns exactly the remainder of x^n d(x) by the generator with roots 2^1..2^n, most significant first (the row of the factor table is the one of that length, also for the first and the last length), and refuses a length that is not in the table", 17)
+	p := c.pkg("datamatrix/encoder")
+	fd, fp := c.funcDeclOf("datamatrix/encoder", "createECCBlock")
+	logObj, alogObj := c.lookupObj("datamatrix/encoder", "log"), c.lookupObj("datamatrix/encoder", "alog")
+	if p == nil || fd == nil || logObj == nil || alogObj == nil {
+		r.AnchorLost("S-DMECC", "datamatrix/encoder.createECCBlock", "createECCBlock / log / alog not found")
+		return
+	}
+	var initFd *ast.FuncDecl
+	for _, f := range p.Syntax {
+		for _, d := range f.Decls {
+			if x, ok := d.(*ast.FuncDecl); ok && x.Recv == nil && x.Name.Name == "init" && x.Body != nil && usesIdent(p, x.Body, logObj) {
+				initFd = x
+			}
+		}
+	}
+	key := "datamatrix/encoder.init (log / alog)"
+	r.Analysed(key)
+	if initFd == nil {
+		r.AnchorLost("S-DMECC", key, "no initialiser that fills log")
+		return
+	}
+	dm := newRefGF(0x12D, 256, 1)
+	h := &rpf{unroll: 100000, maxSteps: 200000, writeBack: true, env: map[types.Object]*Val{logObj: {K: VNil}, alogObj: {K: VNil}}}
+	_, err := c.rpfCall(initFd, p, nil, h)
+	bad := ""
+	var logV, alogV *Val
+	if err != nil {
+		bad = "?" + err.Error()
+	} else {
+		logV, alogV = h.env[logObj], h.env[alogObj]
+		lg, ok1 := listInts(logV)
+		al, ok2 := listInts(alogV)
+		switch {
+		case !ok1 || !ok2 || len(lg) != 256 || len(al) < 255:
+			bad = fmt.Sprintf("?log / alog do not fold to tables of 256 and 255 constants (%d, %d)", len(lg), len(al))
+		default:
+			for i := 0; i < 255 && bad == ""; i++ {
+				if int(al[i]) != dm.exp[i] {
+					bad = fmt.Sprintf("alog[%d] = %d, 2^%d over GF(256)/0x12D is %d", i, al[i], i, dm.exp[i])
+				}
+			}
+			for v := 1; v < 256 && bad == ""; v++ {
+				if int(lg[v]) != dm.log[v] {
+					bad = fmt.Sprintf("log[%d] = %d, expected %d", v, lg[v], dm.log[v])
+				}
+			}
+		}
+	}
+	reportFold(r, c, "S-DMECC", key, initFd.Pos(), bad)
+	if bad != "" {
+		return
+	}
+	globals := map[types.Object]*Val{logObj: logV, alogObj: alogV}
+	words := [][]int{{}, {1}, {255}, {142, 50, 46}, {129, 0, 0, 77, 200, 1, 254, 3, 99}}
+	for _, n := range []int{5, 7, 10, 11, 12, 14, 18, 20, 24, 28, 36, 42, 48, 56, 62, 68} {
+		key := fmt.Sprintf("datamatrix/encoder.createECCBlock(n=%d)", n)
+		r.Analysed(key)
+		bad := ""
+		for _, w := range words {
+			hh := &rpf{unroll: 100000, maxSteps: 2000000, callHook: errCtorHook}
+			res, err := c.rpfCallWithGlobals(fd, fp, []*Val{localInts(w), vint(int64(n))}, hh, globals)
+			if err != nil {
+				bad = "?" + err.Error()
+				break
+			}
+			if len(res) != 2 || res[1].K != VNil {
+				bad = fmt.Sprintf("createECCBlock(%v, %d) reports an error: %d is an ECC 200 parity length", w, n, n)
+				break
+			}
+			got, ok := listInts(res[0])
+			if !ok {
+				bad = "?the check words are not constants"
+				break
+			}
+			want := dm.parity(w, n)
+			if fmt.Sprint(got) != fmt.Sprint(want) {
+				bad = fmt.Sprintf("createECCBlock(%v, %d) = %v, the Reed-Solomon check words over GF(256)/0x12D are %v", w, n, got, want)
+				break
+			}
+		}
+		reportFold(r, c, "S-DMECC", key, fd.Pos(), bad)
+	}
+	// a length outside the table
+	key = "datamatrix/encoder.createECCBlock(n=6)"
+	r.Analysed(key)
+	hh := &rpf{unroll: 100000, maxSteps: 2000000, callHook: errCtorHook}
+	res, err := c.rpfCallWithGlobals(fd, fp, []*Val{localInts([]int{1, 2}), vint(6)}, hh, globals)
+	bad = ""
+	if err != nil {
+		bad = "?" + err.Error()
+	} else if len(res) != 2 || res[1].K == VNil {
+		bad = "createECCBlock(…, 6) does not report an error: 6 is not an ECC 200 parity length"
+	}
+	reportFold(r, c, "S-DMECC", key, fd.Pos(), bad)
 }
